@@ -39,15 +39,21 @@ Definition mapping := list (text * assoc).
 Fixpoint mlookup (id : text) (m : mapping) : option assoc :=
   match m with [] => None | (id', e) :: r => if text_eqb id id' then Some e else mlookup id r end.
 
-(* ---- _cast_metadata, table.py:666-686: a tuple that consists of None only (the empty tuple
-   included) becomes None, otherwise None entries become empty dicts ---- *)
+(* ---- _cast_metadata, table.py:681-700 (after repair 16e406b1): a tuple in which no entry
+   holds anything (None or an empty mapping; the empty tuple included) becomes None, as in the
+   constructor; otherwise None entries become empty dicts and dicts are copied ---- *)
 Definition is_none {A} (o : option A) : bool := match o with None => true | Some _ => false end.
+Definition is_nil {A} (l : list A) : bool := match l with [] => true | _ => false end.
+Definition opt_empty (o : option assoc) : bool := match o with None => true | Some e => is_nil e end.
 Definition cast_opt (l : list (option assoc)) : option (list assoc) :=
-  if forallb is_none l then None
+  if forallb opt_empty l then None
   else Some (map (fun o => match o with Some e => e | None => [] end) l).
-(* the same on a tuple of dicts: only the empty tuple collapses *)
+(* the same on a tuple of dicts *)
 Definition cast_md (md : option (list assoc)) : option (list assoc) :=
-  match md with Some [] => None | _ => md end.
+  match md with
+  | Some l => if forallb is_nil l then None else Some l
+  | None => None
+  end.
 
 (* ---- add_metadata, table.py:850-866 ---- *)
 Definition add_step (ids : list text) (l : list assoc) (p : text * assoc) : list assoc :=
@@ -70,7 +76,6 @@ Definition add_metadata (t : mtab) (m : mapping) (a : axis) : mtab :=
 Inductive axsel := SelObs | SelSamp | SelWhole.
 Definition selected (s : axsel) (a : axis) : bool :=
   match s, a with SelWhole, _ => true | SelObs, Obs => true | SelSamp, Samp => true | _, _ => false end.
-Definition is_nil {A} (l : list A) : bool := match l with [] => true | _ => false end.
 Definition del_axis (keys : option (list text)) (md : option (list assoc)) : option (list assoc) :=
   match keys with
   | None => None
@@ -205,3 +210,32 @@ Section Relation.
                 (combine (tl H) (tl (pad (length H) (map (strip_f sq ss) cells))))))
         (rows_of (f_items g)).
 End Relation.
+
+(* ---- histories over several tables (value semantics: what the code must implement although
+   its dicts are mutable objects).  The value of a mapping entry is a literal dict or the
+   metadata object another table (or the same one) holds for an id at that moment, as in
+   t.add_metadata({'S1': ref.metadata('R1', axis)}). ---- *)
+Inductive esrc := ELit (e : assoc) | ERef (tj : nat) (a : axis) (id : text).
+Inductive minstr :=
+| IAdd (ti : nat) (a : axis) (m : list (text * esrc))
+| IDel (ti : nat) (keys : option (list text)) (s : axsel).
+Definition mt_empty : mtab := mkM [] [] [] None None.
+Definition entry_for (t : mtab) (a : axis) (id : text) : assoc :=
+  match tpos id (m_ids a t), m_mds a t with
+  | Some i, Some l => nth i l []
+  | _, _ => []
+  end.
+Definition resolve (ts : list mtab) (s : esrc) : assoc :=
+  match s with ELit e => e | ERef j a id => entry_for (nth j ts mt_empty) a id end.
+Definition mstep (ts : list mtab) (i : minstr) : list mtab :=
+  match i with
+  | IAdd ti a m =>
+      upd ts ti (add_metadata (nth ti ts mt_empty) (map (fun p => (fst p, resolve ts (snd p))) m) a)
+  | IDel ti keys s => upd ts ti (del_metadata (nth ti ts mt_empty) keys s)
+  end.
+(* the states after every step *)
+Fixpoint mexec (ts : list mtab) (prog : list minstr) : list (list mtab) :=
+  match prog with
+  | [] => []
+  | i :: r => let ts' := mstep ts i in ts' :: mexec ts' r
+  end.
